@@ -178,6 +178,8 @@ def parse_rvalue(s):
         if m:
             return ("cast", parse_operand(m.group(1)), m.group(2).strip(), m.group(3))
         return ("use", parse_operand(s))
+    if re.fullmatch(r"PhantomData::<[^;]*>", s):
+        return ("struct", "PhantomData", [])
     m = re.match(r"(\w+)\(", s)
     if m and s.endswith(")") and _match_paren(s, m.end() - 1) == len(s) - 1:
         name, inner = m.group(1), s[m.end():-1]
@@ -223,6 +225,9 @@ def parse_rvalue(s):
                 k, v = f.split(":", 1)
                 fields.append((k.strip(), parse_operand(v)))
         return ("closure", m.group(1), fields)
+    m = re.fullmatch(r"([\w:]+)::<[^()]*>\((.*)\)", s, re.S)      # tuple-struct constructor `Path::<T>(a, b)`
+    if m:
+        return ("variant", m.group(1), "new", [parse_operand(p) for p in split_top(m.group(2))])
     m = re.fullmatch(r"(.*)::(\w+)\((.*)\)", s, re.S)
     if m and "::<" in s or (m and re.match(r"[\w:<>]+$", m.group(1) or "")):
         if m:
@@ -332,6 +337,9 @@ def parse_mir(text):
     i, n = 0, len(lines)
     while i < n:
         line = lines[i]
+        pm = re.match(r"const (.*::promoted\[\d+\]): (.*) = \{$", line.rstrip())
+        if pm:     # promoted constant: a zero-argument body evaluated where it is used
+            line = lines[i] = f"fn {pm.group(1)}() -> {pm.group(2)} {{"
         if line.startswith("fn ") and line.rstrip().endswith("{"):
             j = i + 1
             while j < n and lines[j] != "}":
